@@ -153,12 +153,18 @@ def check_reused(acc, mname, ri, sensor, idx, op, thr, base_vals, base_obs, tag)
     acc.cases += 1
 
 
-def check_threshold(acc, mname, ri, sensor, idx, op, thr, base_vals_in_thr_unit, base_obs, tag):
-    """thr = [value, unit]; base_vals_in_thr_unit: unstopped series expressed in thr's unit (plain floats)."""
+def check_threshold(acc, mname, ri, sensor, idx, op, thr, base_vals_in_thr_unit, base_obs, tag, numpy_value=False):
+    """thr = [value, unit]; base_vals_in_thr_unit: unstopped series expressed in thr's unit (plain floats).
+    numpy_value: the threshold quantity is built from a numpy.float64 (a float subclass users get from any numpy computation)."""
     spec = model_spec(mname)
     dt, T = RUNS[ri]
-    case = {'kind': 'thr', 'model': mname, 'run': ri, 'sensor': sensor, 'idx': idx, 'op': op, 'thr': thr, 'tag': tag}
-    m, info = sim.run_schedule(spec, [('run', dt, T, None, [sensor, idx, op, thr])])
+    case = {'kind': 'thr', 'model': mname, 'run': ri, 'sensor': sensor, 'idx': idx, 'op': op, 'thr': thr, 'tag': tag, 'numpy': numpy_value}
+    thr_arg = thr
+    if numpy_value:
+        import numpy
+        thr_arg = [numpy.float64(thr[0]), thr[1]]
+        tag = tag + '/numpy-threshold'
+    m, info = sim.run_schedule(spec, [('run', dt, T, None, [sensor, idx, op, thr_arg])])
     acc.executions += 1
     if info['error']:
         acc.violation(f'C16/run-error/{info["error"][0]}', 'run succeeds', case, {'error': info['error']})
@@ -232,6 +238,9 @@ def run_shard(shard, tier):
             if tag == 'mid' and op in ('>', '<='):
                 check_reused(acc, mname, ri, sensor, idx, op, thr, vals0, base_obs, tag)
                 acc.nstates += 1
+            if tag in ('mid', 'equal-sample') and op in ('>=', '<', '=='):
+                check_threshold(acc, mname, ri, sensor, idx, op, thr, vals0, base_obs, tag, numpy_value=True)
+                acc.nstates += 1
             if first:
                 acc.sample({'model': mname, 'dt_T': RUNS[ri], 'sensor': sensor, 'element': idx, 'operator': op,
                             'threshold': thr, 'placement': tag})
@@ -285,6 +294,6 @@ def replay(case):
         u = case['thr'][1]
         vals = [si.convert(q.value, kind, q.unit, u) if q.unit != u else q.value for q in series]
         check_threshold(acc, case['model'], case['run'], case['sensor'], case['idx'], case['op'], case['thr'],
-                        vals, base.observe(), case['tag'])
+                        vals, base.observe(), case['tag'].replace('/numpy-threshold', ''), numpy_value=case.get('numpy', False))
         return acc.violations
     return run_shard(case['shard'], 'quick').violations
